@@ -6,13 +6,23 @@ os.environ.setdefault("VERIF_SRC", "/repo/src")
 import warnings; warnings.simplefilter("ignore")
 props = [json.loads(l) for l in open('/verif/properties.jsonl')]
 checks, na = [], []
+READY = set(open('/verif/tools/ready.txt').read().split())
 for p in props:
     pid = p['id']
     path = f'/verif/vf/props/{pid.lower()}.py'
     if not os.path.exists(path):
         na.append({"property_id": pid, "reason": "check not built yet (work in progress; the design in DESIGN.md section 5 applies)"})
         continue
-    m = importlib.import_module(f'vf.props.{pid.lower()}')
+    try:
+        m = importlib.import_module(f'vf.props.{pid.lower()}')
+        m.LEVEL, m.LEVEL_TEXT, m.LEVEL_NOTE, m.TECHNIQUE
+    except Exception as e:
+        print("skip", pid, type(e).__name__, e)
+        na.append({"property_id": pid, "reason": "check not finished yet (work in progress; the design in DESIGN.md section 5 applies)"})
+        continue
+    if pid not in READY:
+        na.append({"property_id": pid, "reason": "check not finished yet (work in progress; the design in DESIGN.md section 5 applies)"})
+        continue
     c = {
         "property_id": pid,
         "quick_cmd": f"./check {pid} quick",
